@@ -1759,6 +1759,211 @@ def options_compare(ctx, sc, got, problems, out):
                       % (got[1][0]["function"], name), {"stream": "options", "scenario": sc}, kind="correspondence")
 
 
+
+# ----------------------------------------------------------------------------- round 5b: the decorated callable as ENTRY POINT
+ENTRY_SCRIPT = r"""
+import sys
+sys.path.insert(0, %(repo)r)
+from loguru import logger
+logger.remove()
+w = sys.__stdout__.write
+def sink(m):
+    ex = m.record["exception"]
+    w("RECORD %%d %%s %%d\n" %% (m.record["level"].no, type(ex.value).__name__ if ex else None, str(m).count("ValueError")))
+logger.add(sink, level=0, backtrace=%(backtrace)r, diagnose=%(diagnose)r, colorize=%(colorize)r, catch=%(hcatch)r)
+@logger.catch(level=%(level)r, reraise=False, onerror=lambda e: w("ONERROR %%s\n" %% type(e).__name__))
+def cb(*a):
+    raise ValueError("from the entry point")
+mode = %(mode)r
+if mode == "atexit":
+    import atexit
+    atexit.register(cb)
+elif mode == "excepthook":
+    sys.excepthook = cb
+    raise KeyError("top level")
+elif mode == "threading_excepthook":
+    import threading
+    threading.excepthook = cb
+    def boom():
+        raise KeyError("in thread")
+    t = threading.Thread(target=boom); t.start(); t.join()
+else:
+    import _thread, time
+    _thread.start_new_thread(cb, ())
+    time.sleep(0.5)
+"""
+
+
+def gen_entry_scenario(rng):
+    """the POSITION of the decorated callable in the stack: it is the outermost Python frame - the entry point of
+    a raw thread (`_thread.start_new_thread(decorated, ())`; `threading.Thread` is not enough, `Thread.run` is a
+    Python frame), for generators / coroutines / async generators the thread's entry is the bound `__next__` /
+    `send` of the decorated object - or it is called from a Python frame as usual (control).  The sink is a REAL
+    handler with the options of `add()` (backtrace, diagnose, colorize, catch): the record must ARRIVE."""
+    lvl = list(rng.choice(LEVELS[:4]))
+    return {"entry": rng.choice(["rawthread", "rawthread", "rawthread", "direct"]),
+            "kind": rng.choice(["fn", "fn", "gen", "coro", "agen"]),
+            "backtrace": rng.chance(75), "diagnose": rng.chance(50), "colorize": rng.chance(30), "hcatch": rng.chance(80),
+            "level": lvl, "reraise": rng.chance(25), "default": rng.choice([0, 3, 7]), "stack": rng.range(1, 2) if rng.chance(80) else 3,
+            "exc": [rng.choice([5, 6, 7, 8, 10, 11]), 100], "depth_in_body": rng.below(3)}
+
+
+def execute_entry(sc, timeout=20.0):
+    import _thread
+    import io
+    import sys
+    import threading
+    import time
+    from loguru._logger import Core, Logger
+    lg = Logger(core=Core(), exception=None, depth=0, record=False, lazy=False, colors=False, raw=False,
+                capture=True, patchers=[], extra={})
+    e1 = CLASSES[sc["exc"][0]]()
+    got, onerr = [], []
+    done = threading.Event()
+
+    def sink(msg):
+        rec = msg.record
+        got.append((rec["level"].no, rec["exception"] is not None and rec["exception"].value is e1,
+                    type(e1).__name__ in str(msg)))
+    lg.add(sink, level=0, backtrace=sc["backtrace"], diagnose=sc["diagnose"], colorize=sc["colorize"], catch=sc["hcatch"])
+
+    def onerror(e):
+        onerr.append(e)
+        if len(onerr) == sc["stack"] or not sc["reraise"]:
+            done.set()
+
+    def inner(n):
+        if n <= 0:
+            raise e1
+        return inner(n - 1)
+    kind = sc["kind"]
+    if kind == "fn":
+        def body():
+            inner(sc["depth_in_body"])
+    elif kind == "gen":
+        def body():
+            inner(sc["depth_in_body"])
+            yield 1
+    elif kind == "coro":
+        async def body():
+            inner(sc["depth_in_body"])
+    else:
+        async def body():
+            inner(sc["depth_in_body"])
+            yield 1
+    f = body
+    for _ in range(sc["stack"]):
+        f = lg.catch(Exception, level=sc["level"][0], reraise=sc["reraise"], default=pyval(sc["default"]), onerror=onerror)(f)
+    if kind == "fn":
+        target, args = f, ()
+    elif kind == "gen":
+        target, args = f().__next__, ()
+    elif kind == "coro":
+        target, args = f().send, (None,)
+    else:
+        target, args = f().__anext__().send, (None,)
+    outcome = None
+    old_err, old_hook = sys.stderr, sys.unraisablehook
+    sys.stderr = io.StringIO()                  # (a handler with catch=True reports its own failures there)
+    sys.unraisablehook = lambda *a: done.set()  # what leaves the entry point of a raw thread ends here
+    try:
+        if sc["entry"] == "direct":
+            try:
+                target(*args)
+                outcome = "returned"
+            except (StopIteration, StopAsyncIteration):
+                outcome = "returned"
+            except BaseException as e:  # noqa
+                outcome = "raised " + type(e).__name__ if e is not e1 else "reraised"
+        else:
+            base = _thread._count()
+            _thread.start_new_thread(target, args)
+            finished = done.wait(timeout)
+            t0 = time.time()
+            while _thread._count() > base and time.time() - t0 < timeout:
+                time.sleep(0.0005)
+            outcome = "thread ended" if finished and _thread._count() <= base else "thread did not end"
+    finally:
+        noise = sys.stderr.getvalue()
+        sys.stderr, sys.unraisablehook = old_err, old_hook
+        try:
+            lg.remove()
+        except BaseException:  # noqa
+            pass
+    return got, len(onerr), outcome, noise[-300:]
+
+
+def judge_entry(sc, res):
+    got, n_onerr, outcome, noise = res
+    problems = []
+    # every decorator of the stack handles the exception; with reraise each of them logs once, else only the innermost
+    layers = sc["stack"] if sc["reraise"] else 1
+    want = [(sc["level"][1], True, True)] * layers
+    where = "the entry point of a raw thread (no caller frame at all)" if sc["entry"] == "rawthread" else "called from a Python frame"
+    if got != want:
+        problems.append("a catch()-decorated %s raising %s, %s, handler added with backtrace=%s diagnose=%s colorize=%s catch=%s: "
+                        "%d record(s) reached the sink %s, expected %d at level %d carrying the exception and naming it in "
+                        "the formatted text%s" % (sc["kind"], CLASSES[sc["exc"][0]].__name__, where, sc["backtrace"], sc["diagnose"],
+                                                  sc["colorize"], sc["hcatch"], len(got), got, layers, sc["level"][1],
+                                                  ("; the handler reported: …" + noise.strip()[-160:]) if noise.strip() else ""))
+    if n_onerr != layers:
+        problems.append("%d onerror call(s), expected %d (%s)" % (n_onerr, layers, where))
+    if outcome in ("thread did not end",) or outcome.startswith("raised"):
+        problems.append("outcome: %s (%s)" % (outcome, where))
+    return problems
+
+
+def entry_subprocess(ctx, mode, opts):
+    """entry points that need an interpreter of their own: an `atexit` callback, `sys.excepthook`, `threading.excepthook`"""
+    import subprocess
+    import sys
+    script = ENTRY_SCRIPT % dict(opts, repo=core.REPO, mode=mode)
+    try:
+        p = subprocess.run([sys.executable, "-c", script], stdout=subprocess.PIPE, stderr=subprocess.PIPE, timeout=60)
+    except subprocess.TimeoutExpired:
+        raise core.DriverError("entry-point child process timed out (%s)" % mode)
+    lines = p.stdout.decode("utf8", "replace").splitlines()
+    recs = [ln for ln in lines if ln.startswith("RECORD")]
+    ons = [ln for ln in lines if ln.startswith("ONERROR")]
+    want = ["RECORD %d ValueError %s" % (opts["levelno"], "%d")]
+    ok = len(recs) == 1 and recs[0].startswith("RECORD %d ValueError " % opts["levelno"]) and not recs[0].endswith(" 0") \
+        and ons == ["ONERROR ValueError"]
+    ctx.case(("entry", mode, repr(sorted(opts.items()))), nontrivial=True)
+    ctx.stat("entry:" + mode)
+    if not ok:
+        ctx.violation("entry point: a catch()-decorated function installed as %s (the outermost Python frame) raised ValueError; "
+                      "expected exactly one record at level %d carrying it and one onerror call, observed records %s, onerror "
+                      "calls %s; stderr: …%s" % (mode, opts["levelno"], recs, ons, p.stderr.decode("utf8", "replace").strip()[-200:]),
+                      {"stream": "entry-subprocess", "mode": mode, "opts": opts})
+    return ok
+
+
+def entry_stream(ctx, rng):
+    n = ctx.n(120, 3000) * (2 if getattr(ctx, "search_boost", False) else 1)
+    scs = [dict(W_ENTRY, kind=k) for k in ("fn", "gen", "coro", "agen")] + [gen_entry_scenario(rng) for _ in range(n)]
+    for sc in scs:
+        res = execute_entry(sc)
+        if res[2] == "thread did not end":
+            ctx.stat("entry:retried_after_timeout")
+            res = execute_entry(sc, timeout=90.0)
+        ctx.case(("entry", repr(sc)), nontrivial=sc["entry"] == "rawthread")
+        ctx.traces_validated += 1
+        ctx.stat("entry:%s:%s" % (sc["entry"], sc["kind"]))
+        for what in judge_entry(sc, res)[:1]:
+            ctx.violation("entry point: " + what, {"stream": "entry", "scenario": sc})
+        if len(ctx.violations) >= 40:
+            return
+    modes = ["atexit", "excepthook"] if ctx.quick else ["atexit", "excepthook", "threading_excepthook", "rawthread"] * 3
+    for mode in modes:
+        lv = rng.choice(LEVELS[:4])
+        entry_subprocess(ctx, mode, {"backtrace": True if ctx.quick else rng.chance(75), "diagnose": rng.chance(50),
+                                     "colorize": rng.chance(30), "hcatch": True if ctx.quick else rng.chance(80),
+                                     "level": lv[0], "levelno": lv[1]})
+
+
+W_ENTRY = {"entry": "rawthread", "kind": "fn", "backtrace": True, "diagnose": False, "colorize": False, "hcatch": True,
+           "level": ["WARNING", 30], "reraise": False, "default": 7, "stack": 1, "exc": [8, 100], "depth_in_body": 0}
+
 # ----------------------------------------------------------------------------- witnesses / corpus
 def cfg_default(**kw):
     c = {"exc": ["Exception"], "excl": None, "reraise": False, "level": ["ERROR", 40], "default": 7, "onerror": "k"}
@@ -1958,6 +2163,9 @@ def _run(ctx):
     pending_lines = thread_stream(ctx, rng.fork("threads"), drv, model_ok)
     t_thr = time.time()
 
+    # ---- round 5b: the decorated callable as the outermost Python frame, records counted at a REAL handler
+    entry_stream(ctx, rng.fork("entry"))
+
     # ---- round 5: work deferred from inside `_log` (tasks, threads, copied contexts) that itself uses catch()
     deferred_stream(ctx, rng.fork("deferred"))
     t_def = time.time()
@@ -2064,6 +2272,20 @@ def replay(ctx, rep):
         bad = bool(ctx.violations)
         print("REPRODUCED" if bad else "not reproduced")
         return 1 if bad else 0
+    if r.get("stream") == "entry":
+        res = execute_entry(r["scenario"])
+        print("records:     ", res[0], "onerror calls", res[1], "outcome", res[2])
+        problems = judge_entry(r["scenario"], res)
+        for what in problems:
+            print("oracle:      ", what)
+        print("REPRODUCED" if problems else "not reproduced")
+        return 1 if problems else 0
+    if r.get("stream") == "entry-subprocess":
+        ok = entry_subprocess(ctx, r["mode"], r["opts"])
+        for v in ctx.violations:
+            print("oracle:      ", v["what"])
+        print("REPRODUCED" if not ok else "not reproduced")
+        return 0 if ok else 1
     if r.get("stream") == "options":
         got, problems = options_case(ctx, r["scenario"])
         print("result:      ", res_token(got[0]), got[1], "patchers", got[2], "onerror calls", got[3])
